@@ -513,7 +513,36 @@ func init() {
 	}
 	native1("strings.ToLower", strings.ToLower)
 	native1("strings.ToUpper", strings.ToUpper)
-	native1("strings.TrimSpace", strings.TrimSpace)
+	// TrimSpace over a symbolic string: strip one white-space character at a time, each
+	// strip an explored decision (bounded by the string length bound of the harness).
+	reg("strings.TrimSpace", func(ex *Exec, fr *frame, a []Value) Value {
+		if s, ok := a[0].(string); ok {
+			return strings.TrimSpace(s)
+		}
+		isSpace := func(c *Term) *Term {
+			var alts []*Term
+			for _, sp := range []string{" ", "\t", "\n", "\v", "\f", "\r"} {
+				alts = append(alts, TEq(c, TStr(sp)))
+			}
+			return TOr(alts...)
+		}
+		cur := strTerm(a[0])
+		for i := 0; i < 64; i++ {
+			n := TStrLen(cur)
+			if !ex.branchV(TAnd(TGt(n, TInt(0)), isSpace(TStrAt(cur, TInt(0))))) {
+				break
+			}
+			cur = strTerm(simplify(TSubstr(cur, TInt(1), TSub(n, TInt(1)))))
+		}
+		for i := 0; i < 64; i++ {
+			n := TStrLen(cur)
+			if !ex.branchV(TAnd(TGt(n, TInt(0)), isSpace(TStrAt(cur, TSub(n, TInt(1)))))) {
+				break
+			}
+			cur = strTerm(simplify(TSubstr(cur, TInt(0), TSub(n, TInt(1)))))
+		}
+		return cur
+	})
 	reg("strings.Split", func(ex *Exec, fr *frame, a []Value) Value {
 		s, ok1 := a[0].(string)
 		sep, ok2 := a[1].(string)
